@@ -5,7 +5,8 @@ A file is the list of its lines (without the line terminator; Python's `readline
 ever `''` and blank lines are data rows — mirrored).  External code is a parameter or a stated contract:
 * `csv.reader(f, delimiter=d)` on the files considered (no quote characters) splits a line at every `d`
   (`splitOn`), a blank line gives the empty row;
-* `np.genfromtxt(file, delimiter=d, comments=c, ndmin=2)`: every line is cut at the first `c`, blank lines are
+* `np.genfromtxt(lines, delimiter=d, comments=c, ndmin=2)` on the lines that do not start with a comment
+  character: every line is cut at the first `c`, blank lines are
   dropped, the rest is split at `d`, each field converted by `num` (a failure is `nan`); rows of unequal
   length raise ValueError.
 -/
@@ -111,7 +112,8 @@ deriving Repr
 def cutComment (c : Char) (s : String) : String := String.ofList (s.toList.takeWhile (· ≠ c))
 
 /-- the rows `np.genfromtxt` converts: comment tails removed, blank lines dropped, split at the delimiter -/
-def genRows (d c : Char) (lines : List String) : List (List String) :=
+def genRows (d c : Char) (comments : List Char) (lines : List String) : List (List String) :=
+  let lines := lines.filter fun row => !comments.any (fun c => row.toList.head? = some c)
   (((lines.map (cutComment c)).map stripSp).filter (fun s => s ≠ "")).map fun s => (splitAt d s).map strip
 
 /-- `int(x)` of a float: truncation toward zero -/
@@ -145,7 +147,7 @@ def fromCsvWith (symW : Flags → Bool) (num : String → Option Rat) (lines : L
   -- numeric fast path
   let fast : Option (Except PyErr (Graph Ident)) :=
     if layout = .edgeList then
-      let rows := genRows d sc.comment lines
+      let rows := genRows d sc.comment a.comments lines
       match rows with
       | [] => some (.error .indexError)     -- empty array
       | r0 :: _ =>
